@@ -21,6 +21,7 @@ Lemma append_to_history_empty s : text s = [] -> append_to_history s = s.
 Proof. intros H. unfold append_to_history. rewrite H. reflexivity. Qed.
 
 Lemma append_to_history_store s :
+  thr (th s) = false ->
   store (append_to_history s) =
   match text s with
   | [] => store s
@@ -28,7 +29,8 @@ Lemma append_to_history_store s :
          if skip_append h (text s) then h else append_string h (text s)
   end.
 Proof.
-  unfold append_to_history, skip_append. destruct (text s); [reflexivity|].
+  intros Ht. unfold append_to_history, skip_append, hist_for_get, do_append. rewrite Ht.
+  destruct (text s); [reflexivity|].
   cbv zeta. destruct (ls (ensure_loaded (store s))); [reflexivity|].
   destruct (str_eqb _ _); reflexivity.
 Qed.
@@ -37,8 +39,18 @@ Lemma append_to_history_fields s :
   wl (append_to_history s) = wl s /\ wi (append_to_history s) = wi s /\
   cur (append_to_history s) = cur s /\ hst (append_to_history s) = hst s.
 Proof.
-  unfold append_to_history. destruct (text s); [auto|].
-  destruct (ls (ensure_loaded (store s))); [auto|]. destruct (str_eqb _ _); auto.
+  unfold append_to_history, do_append. destruct (text s); [auto|].
+  destruct (ls (hist_for_get s)); [|destruct (str_eqb _ _)]; try (destruct (thr (th s))); auto.
+Qed.
+
+(* the History object after append_to_history depends on text, History object and its kind only *)
+Lemma append_to_history_store_eq s1 s :
+  text s1 = text s -> store s1 = store s -> th s1 = th s ->
+  store (append_to_history s1) = store (append_to_history s).
+Proof.
+  intros T S H. unfold append_to_history, hist_for_get, do_append. rewrite T, S, H.
+  destruct (text s); [exact S|].
+  destruct (thr (th s)); (destruct (ls _); [|destruct (str_eqb _ _)]); reflexivity.
 Qed.
 
 Lemma sto_append h t : sto (append_string h t) = sto h ++ [t].
@@ -94,11 +106,11 @@ Lemma accept_valid c s :
     (keep c = false -> wl s' = [[]] /\ wi s' = 0 /\ cur s' = 0 /\ hst s' = None /\
                        vst s' = V_UNKNOWN /\ task s' = None).
 Proof.
-  intros H. destruct (validate_ok c s H) as (s1 & E & (Fw & Fs & _) & W & C & Hh).
+  intros H. destruct (validate_ok c s H) as (s1 & E & (Fw & Fs & _ & _ & _ & Fth) & W & C & Hh).
   unfold validate_and_handle. rewrite E.
   assert (T : text s1 = text s) by (apply text_eq; assumption).
   assert (St : store (append_to_history s1) = store (append_to_history s))
-    by (rewrite !append_to_history_store, T, Fs; reflexivity).
+    by (apply append_to_history_store_eq; assumption).
   rewrite T. eexists; split; [reflexivity|].
   destruct (keep c).
   - split; [exact St|]. split; [|discriminate]. intros _.
@@ -148,9 +160,10 @@ Proof. unfold ensure_loaded. destruct (loaded h) eqn:E; [exact E | reflexivity].
 Lemma coh_get_strings h : Coh h -> get_strings h = sto h.
 Proof. intros H. unfold get_strings. rewrite (coh_ls_ensure h H), rev_involutive. reflexivity. Qed.
 
-Lemma coh_append_to_history s : Coh (store s) -> Coh (store (append_to_history s)).
+Lemma coh_append_to_history s :
+  thr (th s) = false -> Coh (store s) -> Coh (store (append_to_history s)).
 Proof.
-  intros H. rewrite append_to_history_store. destruct (text s); [exact H|]. cbv zeta.
+  intros Ht H. rewrite append_to_history_store by exact Ht. destruct (text s); [exact H|]. cbv zeta.
   destruct (skip_append _ _); [apply coh_ensure, H | apply coh_append, coh_ensure, H].
 Qed.
 
@@ -177,14 +190,14 @@ Qed.
    get_strings()) unless the text is empty or equals the newest stored entry -
    whether or not the history had been loaded. *)
 Lemma append_spec s :
-  Coh (store s) ->
+  thr (th s) = false -> Coh (store s) ->
   let S := sto (store s) in
   let h' := store (append_to_history s) in
   sto h' = (if stored_skip S (text s) then S else S ++ [text s]) /\ get_strings h' = sto h'.
 Proof.
-  intros Hc S h'. assert (Hc' : Coh h') by (apply coh_append_to_history, Hc).
+  intros Ht Hc S h'. assert (Hc' : Coh h') by (apply coh_append_to_history; assumption).
   split; [|apply coh_get_strings, Hc'].
-  unfold h'. rewrite append_to_history_store. unfold stored_skip.
+  unfold h'. rewrite append_to_history_store by exact Ht. unfold stored_skip.
   destruct (text s) as [|ch t] eqn:Et; [reflexivity|]. cbv zeta.
   unfold skip_append. rewrite (coh_ls_ensure _ Hc). fold S.
   destruct (rev S) as [|x r]; [rewrite sto_append, ensure_loaded_sto; reflexivity|].
@@ -199,7 +212,8 @@ Qed.
 
 Lemma pop_step_coh s : Coh (store s) -> Coh (store (pop_step s)).
 Proof.
-  intros H. unfold pop_step. destruct (task s); [|exact H]. destruct (tfin s); [exact H|].
+  intros H. unfold pop_step. destruct (thr (th s)); [exact H|].
+  destruct (task s); [|exact H]. destruct (tfin s); [exact H|].
   destruct (nth_error _ _); proj; apply coh_ensure, H.
 Qed.
 
@@ -209,9 +223,10 @@ Proof. induction n; intros s H; cbn [pop_n]; [exact H | apply IHn, pop_step_coh,
 Lemma frame_coh s s' : frame s s' -> Coh (store s) -> Coh (store s').
 Proof. intros (_ & E & _). rewrite E. auto. Qed.
 
-Lemma core_coh c s o : Coh (store s) -> Coh (store (snd (fst (step_core c s o)))).
+Lemma core_coh c s o :
+  thr (th s) = false -> Coh (store s) -> Coh (store (snd (fst (step_core c s o)))).
 Proof.
-  intros H.
+  intros Ht H.
   destruct o; try (apply (frame_coh s); [apply nav_core_frame; exact I | exact H]);
     cbn [step_core ok fst snd].
   - destruct (insert_text _ _ _ _); cbn [of_res ok fst snd]; [rewrite write_back_store|]; exact H.
@@ -222,39 +237,44 @@ Proof.
     pose proof (validate_frame c s true) as F.
     destruct (validate c s true) as [s1 okv]; cbn [fst] in F.
     assert (H1 : Coh (store s1)) by (eapply frame_coh; eauto).
+    assert (Ht1 : thr (th s1) = false) by (destruct F as (_ & _ & _ & _ & _ & K); rewrite K; exact Ht).
     destruct okv; cbn [fst snd]; [|exact H1].
-    destruct (keep c); [|unfold reset; proj]; apply coh_append_to_history, H1.
-  - unfold reset; proj. destruct app; [apply coh_append_to_history|]; exact H.
-  - unfold load_start. destruct (task s); proj; exact H.
+    destruct (keep c); [|unfold reset; proj]; apply coh_append_to_history; assumption.
+  - unfold reset; proj. destruct app; [apply coh_append_to_history|]; assumption.
+  - unfold load_start. rewrite Ht. destruct (task s); proj; exact H.
   - apply pop_step_coh, H.
   - apply pop_n_coh, H.
   - proj; exact H.
-  - apply coh_append_to_history, H.
+  - apply coh_append_to_history; assumption.
   - unfold reopen, reset; proj. apply coh_init.
+  - unfold thread_step. rewrite Ht. exact H.
 Qed.
 
-Lemma step_coh c s o : Coh (store s) -> Coh (store (step_state c s o)).
+Lemma step_coh c s o : thr (th s) = false -> Coh (store s) -> Coh (store (step_state c s o)).
 Proof.
-  intros H. rewrite step_state_eq. eapply frame_coh; [apply flush_frame | apply core_coh, H].
+  intros Ht H. rewrite step_state_eq by exact Ht.
+  eapply frame_coh; [apply flush_frame | apply core_coh; assumption].
 Qed.
 
-Lemma steps_coh c ops : forall s, Coh (store s) -> Coh (store (steps c s ops)).
+Lemma steps_coh c ops : forall s,
+  thr (th s) = false -> Coh (store s) -> Coh (store (steps c s ops)).
 Proof.
-  induction ops as [|o r IH]; intros s H; cbn [steps fold_left]; [exact H | apply IH, step_coh, H].
+  induction ops as [|o r IH]; intros s Ht H; cbn [steps fold_left]; [exact H|].
+  apply IH; [rewrite step_thr; exact Ht | apply step_coh; assumption].
 Qed.
 
 (* accepting: returned text, and the stored history gains it exactly once *)
 Lemma accept_history c s :
-  Coh (store s) -> verdict_ok c s ->
+  thr (th s) = false -> Coh (store s) -> verdict_ok c s ->
   let r := validate_and_handle c s in
   snd r = Some (text s) /\
   sto (store (fst r)) =
     (if stored_skip (sto (store s)) (text s) then sto (store s) else sto (store s) ++ [text s]) /\
   get_strings (store (fst r)) = sto (store (fst r)).
 Proof.
-  intros Hc Hv r. destruct (accept_valid c s Hv) as (s' & E & St & _).
+  intros Ht Hc Hv r. destruct (accept_valid c s Hv) as (s' & E & St & _).
   unfold r. rewrite E. cbn [fst snd]. rewrite St.
-  destruct (append_spec s Hc) as (A & B). auto.
+  destruct (append_spec s Ht Hc) as (A & B). auto.
 Qed.
 
 (* Before the fix (finding C14-F1) only what had been loaded so far was
@@ -264,7 +284,7 @@ Lemma append_dedupe_unloaded_pinned_refuted :
     sto (store s) = [text s] /\ text s <> [] /\
     sto (store (append_to_history_pinned s)) = [text s; text s].
 Proof.
-  exists (mk [[97]] 0 1 None None V_UNKNOWN false (mkst [] [[97]] false) None false false false).
+  exists (mk [[97]] 0 1 None None V_UNKNOWN false (mkst [] [[97]] false) None false false false (mkth false 0 false [] 0)).
   repeat split; try (vm_compute; congruence); try reflexivity.
   apply coh_init.
 Qed.
@@ -286,7 +306,8 @@ Lemma pop_step_displayed s :
   text (pop_step s) = text s /\ cur (pop_step s) = cur s /\ hst (pop_step s) = hst s /\
   vst (pop_step s) = vst s /\ pref (pop_step s) = pref s.
 Proof.
-  intros HI. unfold pop_step. destruct (task s); [|auto]. destruct (tfin s); [auto|].
+  intros HI. unfold pop_step. destruct (thr (th s)); [auto|].
+  destruct (task s); [|auto]. destruct (tfin s); [auto|].
   destruct (nth_error _ _); unfold text; proj; auto.
   rewrite index_cons_shift by exact HI. auto.
 Qed.
@@ -304,7 +325,8 @@ Lemma pop_step_shift s :
   wi (pop_step s) - wi s = len (wl (pop_step s)) - len (wl s) /\
   exists new, wl (pop_step s) = new ++ wl s.
 Proof.
-  unfold pop_step. destruct (task s); [|split; [lia | exists []; reflexivity]].
+  unfold pop_step. destruct (thr (th s)); [split; [lia | exists []; reflexivity]|].
+  destruct (task s); [|split; [lia | exists []; reflexivity]].
   destruct (tfin s); [split; [lia | exists []; reflexivity]|].
   destruct (nth_error _ _) as [item|]; proj.
   - rewrite len_cons. split; [lia | exists [item]; reflexivity].
@@ -327,6 +349,7 @@ Section Population.
 
   (* the loader has delivered the [i] newest entries *)
   Definition PJ (s : hs) : Prop :=
+    thr (th s) = false /\
     exists i : nat, task s = Some (Z.of_nat i) /\ wl s = rev (firstn i L) ++ [t] /\
       ls (ensure_loaded (store s)) = L /\ sto (store s) = S0 /\ (i <= length L)%nat /\
       (tfin s = true -> i = length L).
@@ -341,13 +364,16 @@ Section Population.
 
   Lemma PJ_frame s s' : frame s s' -> PJ s -> PJ s'.
   Proof.
-    intros (A & B & C & D & _) (i & H1 & H2 & H3 & H4 & H5 & H6).
+    intros (A & B & C & D & _ & E) (Ht & i & H1 & H2 & H3 & H4 & H5 & H6).
+    split; [rewrite E; exact Ht|].
     exists i. rewrite A, B, C, D. auto 10.
   Qed.
 
   Lemma PJ_pop_step s : PJ s -> PJ (pop_step s).
   Proof.
-    intros (i & H1 & H2 & H3 & H4 & H5 & H6). unfold pop_step. rewrite H1.
+    intros (Ht & i & H1 & H2 & H3 & H4 & H5 & H6).
+    split; [rewrite pop_step_th; exact Ht|].
+    unfold pop_step. rewrite Ht, H1.
     destruct (tfin s) eqn:Ef; [exists i; auto 10|].
     proj. rewrite H3, Nat2Z.id.
     destruct (nth_error L i) as [item|] eqn:En.
@@ -366,8 +392,8 @@ Section Population.
   Lemma PJ_step c s o : is_nav o \/ is_pop o -> PJ s -> PJ (step_state c s o).
   Proof.
     intros [Ho|Ho] H.
-    - eapply PJ_frame; [apply nav_step_frame; exact Ho | exact H].
-    - rewrite step_state_eq. eapply PJ_frame; [apply flush_frame|].
+    - eapply PJ_frame; [apply nav_step_frame; [exact (proj1 H) | exact Ho] | exact H].
+    - rewrite step_state_eq by exact (proj1 H). eapply PJ_frame; [apply flush_frame|].
       destruct o; cbn [is_pop] in Ho; try contradiction; cbn [step_core ok fst snd].
       + apply PJ_pop_step, H.
       + apply PJ_pop_n, H.
@@ -382,13 +408,16 @@ Section Population.
 
   Lemma PJ_done s : PJ s -> tfin s = true -> wl s = S0 ++ [t].
   Proof.
-    intros (i & _ & H2 & _ & _ & _ & H6) Hf. rewrite H2, (H6 Hf), firstn_all.
+    intros (_ & i & _ & H2 & _ & _ & _ & H6) Hf. rewrite H2, (H6 Hf), firstn_all.
     unfold L. rewrite rev_involutive. reflexivity.
   Qed.
 
   (* enough steps exhaust the loader *)
   Lemma pop_step_fin_stable s : tfin s = true -> pop_step s = s.
-  Proof. intros H. unfold pop_step. destruct (task s); [rewrite H|]; reflexivity. Qed.
+  Proof.
+    intros H. unfold pop_step. destruct (thr (th s)); [reflexivity|].
+    destruct (task s); [rewrite H|]; reflexivity.
+  Qed.
 
   Lemma pop_n_fin_stable n : forall s, tfin s = true -> pop_n n s = s.
   Proof.
@@ -397,13 +426,13 @@ Section Population.
   Qed.
 
   Lemma pop_n_fin n : forall s (i : nat),
-    task s = Some (Z.of_nat i) -> ls (ensure_loaded (store s)) = L -> (i <= length L)%nat ->
+    thr (th s) = false -> task s = Some (Z.of_nat i) -> ls (ensure_loaded (store s)) = L -> (i <= length L)%nat ->
     (length L < i + n)%nat -> tfin (pop_n n s) = true.
   Proof.
-    induction n; intros s i H1 H3 H5 Hn; [lia|]. cbn [pop_n].
+    induction n; intros s i Ht H1 H3 H5 Hn; [lia|]. cbn [pop_n].
     destruct (tfin s) eqn:Ef.
     { rewrite pop_step_fin_stable by exact Ef. rewrite pop_n_fin_stable; exact Ef. }
-    unfold pop_step. rewrite H1, Ef. proj. rewrite H3, Nat2Z.id.
+    unfold pop_step. rewrite Ht, H1, Ef. proj. rewrite H3, Nat2Z.id.
     destruct (nth_error L i) as [item|] eqn:En.
     - assert (i < length L)%nat by (apply nth_error_Some; congruence).
       apply (IHn _ (S i)); proj; try rewrite ensure_loaded_idem; auto; try lia.
@@ -413,59 +442,64 @@ Section Population.
 End Population.
 
 Lemma PJ_start s t cp :
-  Coh (store s) -> PJ t (sto (store s)) (load_start (reset s t cp false)).
+  thr (th s) = false -> Coh (store s) -> PJ t (sto (store s)) (load_start (reset s t cp false)).
 Proof.
-  intros Hc. exists 0%nat. unfold load_start, reset; proj.
+  intros Ht Hc. unfold load_start, reset; proj. rewrite Ht. split; [exact Ht|].
+  exists 0%nat. proj.
   repeat split; auto; try lia; try discriminate. apply coh_ls_ensure, Hc.
 Qed.
 
 (* reset, then population interleaved with any navigation: once the loader is
    exhausted the entry list is history ++ [new] *)
 Lemma reset_clean_interleaved c s t cp ops :
-  Coh (store s) -> Forall (fun o => is_nav o \/ is_pop o) ops ->
+  thr (th s) = false -> Coh (store s) -> Forall (fun o => is_nav o \/ is_pop o) ops ->
   let s' := steps c (load_start (reset s t cp false)) ops in
   tfin s' = true -> wl s' = sto (store s) ++ [t].
 Proof.
-  intros Hc Ho s' Hf. eapply PJ_done; [|exact Hf].
-  apply PJ_steps; [exact Ho | apply PJ_start, Hc].
+  intros Ht Hc Ho s' Hf. eapply PJ_done; [|exact Hf].
+  apply PJ_steps; [exact Ho | apply PJ_start; assumption].
 Qed.
 
 (* reset, then uninterrupted population *)
 Lemma reset_clean s t cp :
-  Coh (store s) ->
+  thr (th s) = false -> Coh (store s) ->
   let s' := pop_all (load_start (reset s t cp false)) in
   wl s' = sto (store s) ++ [t] /\ wi s' = len (sto (store s)) /\ text s' = t /\ cur s' = cp /\
   sto (store s') = sto (store s) /\ hst s' = None /\ vst s' = V_UNKNOWN.
 Proof.
-  intros Hc. cbv zeta. unfold pop_all.
+  intros Ht Hc. cbv zeta. unfold pop_all.
   set (s0 := load_start (reset s t cp false)).
   set (N := S (S (length (sto (store s0)) + length (ls (store s0))))).
   set (s' := pop_n N s0).
-  assert (P0 : PJ t (sto (store s)) s0) by (apply PJ_start, Hc).
-  assert (I0 : Inv s0) by (unfold s0, load_start, reset, Inv; proj; unfold len; cbn; lia).
+  assert (P0 : PJ t (sto (store s)) s0) by (apply PJ_start; assumption).
+  assert (E0 : s0 = set_task (reset s t cp false) (Some 0) false)
+    by (unfold s0, load_start, reset; proj; rewrite Ht; reflexivity).
+  assert (I0 : Inv s0) by (rewrite E0; unfold reset, Inv; proj; unfold len; cbn; lia).
   assert (Pn : PJ t (sto (store s)) s') by (apply PJ_pop_n, P0).
   assert (Hf : tfin s' = true).
   { unfold s'. apply (pop_n_fin (sto (store s)) _ s0 0%nat).
-    - reflexivity.
-    - unfold s0, load_start, reset; proj. apply coh_ls_ensure, Hc.
+    - exact (proj1 P0).
+    - rewrite E0; reflexivity.
+    - rewrite E0; unfold reset; proj. apply coh_ls_ensure, Hc.
     - lia.
-    - unfold N, s0, load_start, reset; proj. rewrite rev_length. lia. }
+    - unfold N. rewrite E0; unfold reset; proj. rewrite rev_length. lia. }
   pose proof (PJ_done _ _ _ Pn Hf) as W.
   destruct (pop_n_shift N s0) as (Sh & _).
   destruct (pop_n_displayed N s0 I0) as (T & C & Hh).
   fold s' in Sh, T, C, Hh.
-  destruct Pn as (i & _ & _ & _ & St & _).
+  destruct Pn as (_ & i & _ & _ & _ & St & _).
   split; [exact W|].
   split.
-  { rewrite W, len_app in Sh. unfold s0, load_start, reset in Sh; proj.
+  { rewrite W, len_app in Sh. rewrite E0 in Sh. unfold reset in Sh; proj.
     change (len [t]) with 1 in Sh. change (len [t]) with 1 in Sh. lia. }
-  split. { rewrite T. unfold s0, load_start, reset, text; proj. reflexivity. }
-  split. { rewrite C. reflexivity. }
+  split. { rewrite T, E0. unfold reset, text; proj. reflexivity. }
+  split. { rewrite C, E0. reflexivity. }
   split. { exact St. }
-  split. { rewrite Hh. reflexivity. }
+  split. { rewrite Hh, E0. reflexivity. }
   assert (V : forall n x, vst (pop_n n x) = vst x).
   { induction n; intros x; cbn [pop_n]; [reflexivity|]. rewrite IHn.
-    unfold pop_step. destruct (task x); [|reflexivity]. destruct (tfin x); [reflexivity|].
+    unfold pop_step. destruct (thr (th x)); [reflexivity|].
+    destruct (task x); [|reflexivity]. destruct (tfin x); [reflexivity|].
     destruct (nth_error _ _); reflexivity. }
-  unfold s'. rewrite V. reflexivity.
+  unfold s'. rewrite V, E0. reflexivity.
 Qed.
